@@ -252,7 +252,7 @@ def jobs(tier, seed):
     else:
         for a in range(0xE0, 0xF0):
             out.append({"name": f"len3-{a:02x}", "kind": "cases", "cases": [{"batch": "len3", "lead": a}], "full3": True})
-        n, shards = 32000, 16
+        n, shards = 128000, 16
     out += [{"name": f"hyp-{i}", "kind": "hyp", "seed": seed * 1000 + i, "n": n // shards} for i in range(shards)]
     return out
 
